@@ -302,6 +302,13 @@ impl Array {
                     .array()
                     .shape()
                     .to_addr_usize()
+                // NOTE: This shortcut skips `ArraySetLength`, so it is only valid when no element
+                // can exist at or above the new length (a getter called by the builtin may have
+                // added elements after the length was read).
+                && borrowed_object
+                    .properties()
+                    .dense_indexed_len()
+                    .is_some_and(|dense_len| dense_len as u64 <= len)
             {
                 // NOTE: The "length" property is the first element.
                 borrowed_object.properties_mut().storage[0] = JsValue::new(len);
